@@ -16,7 +16,7 @@ limitations under the License.
 //> extends "base.jinja2"
 
 //> block content
-//> if 'eq' in type_def.deriving:
+//> if 'eq' in type_def.deriving and type_def.fields:
 bool operator==(const {{ type_def.cpp.name }}& lhs, const {{ type_def.cpp.name }}& rhs) {
     return
     /*>- for field in type_def.fields */
@@ -27,7 +27,7 @@ bool operator!=(const {{ type_def.cpp.name }}& lhs, const {{ type_def.cpp.name }
     return !(lhs == rhs);
 }
 //> endif
-//> if 'ord' in type_def.deriving:
+//> if 'ord' in type_def.deriving and type_def.fields:
 bool operator<(const {{ type_def.cpp.name }}& lhs, const {{ type_def.cpp.name }}& rhs) {
     //> for field in type_def.fields
     if (lhs.{{ field.cpp.name }} < rhs.{{ field.cpp.name }}) {
